@@ -184,6 +184,19 @@ func TestVerifC17ClientMap(t *testing.T) {
 func TestVerifC17ClientMapRealTime(t *testing.T) {
 	u := vstat.New("C17", "c17_clientmap_rt")
 	defer u.Flush()
+	// every look-up returns at once by design; one that has not returned after 10 s is reported (e.g. the
+	// sweeper keeping the map's lock)
+	sq := func(m *ClientMap, a net.Addr) chan []byte {
+		ch := make(chan chan []byte, 1)
+		go func() { ch <- m.SendQueue(a) }()
+		select {
+		case q := <-ch:
+			return q
+		case <-time.After(10 * time.Second):
+			t.Fatalf("%s", u.Fail(0, "SendQueue had not returned after 10 s: the map's lock is held for good (sweeper?)"))
+			return nil
+		}
+	}
 	timeout := 300 * time.Millisecond
 	for round := 0; round < vstat.Pick(3, 12); round++ {
 		m := NewClientMap(timeout)
@@ -191,10 +204,10 @@ func TestVerifC17ClientMapRealTime(t *testing.T) {
 		// lastA / lastB are taken BEFORE the call that refreshes the entry (the map's own time stamp is
 		// taken later), and "now" AFTER the observation: the measured age is an upper bound of the real one
 		lastA := time.Now()
-		qa := m.SendQueue(a)
+		qa := sq(m, a)
 		qa <- []byte("keep")
 		lastB := time.Now()
-		qb := m.SendQueue(b)
+		qb := sq(m, b)
 		_ = qb
 		// keep a alive for ~3 timeouts by touching it every timeout/3; b is left idle
 		deadline := time.Now().Add(3 * timeout)
@@ -202,7 +215,7 @@ func TestVerifC17ClientMapRealTime(t *testing.T) {
 		replaced := false
 		for time.Now().Before(deadline) {
 			before := time.Now()
-			q := m.SendQueue(a)
+			q := sq(m, a)
 			if q != qa {
 				if age := time.Since(lastA); age < timeout {
 					t.Fatalf("%s", u.Fail(round, "queue of a client seen at most %v ago (timeout %v) was replaced", age, timeout))
